@@ -1,6 +1,7 @@
 import SluVerif.Props.C03Global
 import SluVerif.Proofs.RelaxSnode
 import SluVerif.Proofs.PanelWidth
+import SluVerif.Proofs.InitCursor
 #print axioms Slu.dequeue_spec
 #print axioms Slu.pickPanel_spec
 #print axioms Slu.takePanel_spec
@@ -35,3 +36,6 @@ import SluVerif.Proofs.PanelWidth
 #print axioms Slu.pw0_bounds
 #print axioms Slu.panelWidth_bounds
 #print axioms Slu.panelWidth_no_branch
+#print axioms Slu.initStep_cursor
+#print axioms Slu.initLoop_cursor
+#print axioms Slu.parallelInit_loop_covers
